@@ -12,7 +12,7 @@ from typing import Any, Dict, List, Optional, Set, Tuple
 
 from . import project as P
 from .config import Config, Dom
-from .terms import K, TRUE, FALSE, NONE, app, is_app, is_const, show
+from .terms import K, TRUE, FALSE, NONE, app, is_app, is_const, show, mkphi
 from .values import (Item, PyList, PyDict, Closure, BoundMethod, ClassRef, ModuleRef, ExtRef, BuiltinMethod,
                      SuperRef, Site, Emission, Event)
 
@@ -676,7 +676,7 @@ class ExprMixin:
         self.guards[-1] = app("not", g)
         b = self.to_term(self.eval(node.orelse))
         self.guards.pop()
-        return ("phi", g, a, b)
+        return mkphi(g, a, b)
 
     def e_BoolOp(self, node):
         is_and = isinstance(node.op, ast.And)
@@ -945,6 +945,9 @@ class ExprMixin:
                 return ("unk", "KeyError")
             return ("idx", self.ref_term(base), idx)
         base = self.to_term(base)
+        if base[0] == "elem" and is_const(idx) and idx[1] == 0 and isinstance(base[1], tuple) and len(base[1]) > 3 \
+                and isinstance(base[1][3], tuple) and base[1][3][:2] == ("call", "enumerate"):
+            return ("pos", base[1])         # first component of an element of enumerate(...): the position
         if base[0] in ("tuple", "list") and is_const(idx) and isinstance(idx[1], int):
             items = base[1]
             if -len(items) <= idx[1] < len(items) and all(not (isinstance(i, tuple) and i and i[0] == "each") for i in items):
